@@ -244,10 +244,14 @@ def run(tier, seed, replay=None):
     sim = c.run_tlc("ProcStateMC.tla", "ProcStateSim.cfg", simulate=(40 if tier == "quick" else 400), depth=7, seed=seed, workers=8)
     hs += [json.loads(x) for x in sim.printed]
     if tier == "quick" and len(hs) > 2500:
-        distinct = [h for h in hs if any(s["a"] == "ids" and len({s["r"], s["e"], s["s"]}) == 3 for s in h["steps"])]
-        rest = [h for h in hs if h not in distinct]
-        rnd.shuffle(rest)
-        hs = distinct[:1200] + rest[:1300]
+        def prio(h):
+            acts = [x["a"] for x in h["steps"]]
+            return (any(x["a"] == "ids" and len({x["r"], x["e"], x["s"]}) == 3 for x in h["steps"]), acts.count("call") >= 2, "fork" in acts)
+        first = [h for h in hs if prio(h)[1] or prio(h)[2]]
+        second = [h for h in hs if prio(h)[0] and h not in first]
+        rest = [h for h in hs if h not in first and h not in second]
+        rnd.shuffle(first); rnd.shuffle(second); rnd.shuffle(rest)
+        hs = first[:900] + second[:900] + rest[:700]
     reports = hs[0]["reports"]
     cases = []
     for i, h in enumerate(hs):
